@@ -53,6 +53,7 @@ func (k Kind) String() string { return kindNames[k] }
 type Token struct {
 	id   string
 	site string // file:line of the go statement that created the task
+	node int    // the parent's node when the go statement ran (the child inherits it)
 	s    *Sched
 }
 
@@ -79,7 +80,7 @@ type request struct {
 	kind Kind
 	site string
 	node int
-	rord chan int
+	rord chan [2]int // reply to KSpawn: child ordinal and the parent's node at spawn time
 }
 
 // grant is what the scheduler sends to release a task.
@@ -217,13 +218,14 @@ func Spawn() *Token {
 		return nil
 	}
 	raceDisable()
-	r := &request{l: l, kind: KSpawn, rord: make(chan int)}
+	r := &request{l: l, kind: KSpawn, rord: make(chan [2]int)}
 	l.s.req <- r
-	ord := <-r.rord
+	sp := <-r.rord
+	ord := sp[0]
 	raceEnable()
 	// the id is built by the parent goroutine (never by the scheduler) so that harness
 	// code reading it later has a real happens-before edge (the go statement).
-	t := &Token{id: l.id + "." + itoa(ord), s: l.s}
+	t := &Token{id: l.id + "." + itoa(ord), s: l.s, node: sp[1]}
 	if _, file, line, ok := runtime.Caller(1); ok {
 		if i := strings.LastIndex(file, "/internal/"); i >= 0 {
 			file = file[i+1:]
@@ -261,7 +263,14 @@ func Enter(t *Token) {
 	}
 	l := &local{s: t.s, id: t.id, site: t.site, reply: make(chan grant)}
 	tls[g] = l
-	l.yield(KEnter, "")
+	raceDisable()
+	l.s.req <- &request{l: l, kind: KEnter, node: t.node}
+	gr := <-l.reply
+	raceEnable()
+	l.free = gr.free
+	if gr.switched && l.s.opt.OnSwitch != nil {
+		l.s.opt.OnSwitch(gr.from, gr.to)
+	}
 }
 
 // Exit marks the calling task finished (deferred by the `go` wrapper).
@@ -485,7 +494,7 @@ func (s *Sched) handle(r *request) (inPlace bool) {
 	switch r.kind {
 	case KSpawn:
 		l.children++
-		r.rord <- l.children
+		r.rord <- [2]int{l.children, l.node}
 		return true
 	case KNode:
 		// re-tag the task, then schedule it like any yield: the grant tells it whether the
@@ -493,9 +502,9 @@ func (s *Sched) handle(r *request) (inPlace bool) {
 		l.node = r.node
 		l.pending = r
 	case KEnter:
-		if p := s.parentOf(l.id); p != nil {
-			l.node = p.node
-		}
+		// the node is the parent's AT THE GO STATEMENT (carried in the token), not the parent's
+		// current one: parent and child run on between the go statement and this registration
+		l.node = r.node
 		s.tasks = append(s.tasks, l)
 		l.pending = r
 	case KFatal:
@@ -630,7 +639,7 @@ func (s *Sched) loop() {
 			s.res.Switches++
 		}
 		if s.opt.KeepLog {
-			s.logline(itoa(s.res.Steps) + " " + pick.id + " " + k.String() + " " + site + " run=" + itoa(len(run)))
+			s.logline(itoa(s.res.Steps) + " " + pick.id + " " + k.String() + " " + site + " run=" + itoa(len(run)) + " t=" + itoa(int(time.Since(s.start)/time.Microsecond)) + "us" + runIDs(run))
 		}
 		g := grant{free: free}
 		if pick.node != s.lastNode {
